@@ -1,5 +1,4 @@
-(* C18: ServerOptions.drop_privileges by itself, the close range, the known
-   finding (os.setuid raising), non-vacuity examples. *)
+(* C18: ServerOptions.drop_privileges by itself, the close range, non-vacuity examples. *)
 From Coq Require Import ZArith List Bool String Lia.
 Import ListNotations.
 Require Import SV.C18.Child SV.C18.ChildSpec SV.C18.ChildProofs SV.C18.ChildTail.
@@ -74,7 +73,7 @@ Theorem drop_oserror_message : forall er o w u l r x e,
   drop_privileges er o w u = (l, r) -> In x l -> snd x = Some (EOS e) ->
   (exists gs, fst x = Setgroups gs /\ r = Val (Some RSetgroups)) \/
   (exists g, fst x = Setgid g /\ r = Val (Some RSetgid)) \/
-  (exists n, fst x = Setuid n /\ r = Exc (EOS e)).
+  (exists n, fst x = Setuid n /\ r = Val (Some RSetuid)).
 Proof.
   intros er o w u l r x e.
   drop_cases; intro H; inversion H; subst; clear H; cbn; intros HI HS;
@@ -106,24 +105,19 @@ Proof.
   - intro H. right. apply in_map. apply zrange_In. lia.
 Qed.
 
-(* ---- the known finding: os.setuid() itself raising OSError *)
+(* ---- os.setuid() raising OSError (repaired in 564b475): reported like the
+   setgroups / setgid failures *)
 Definition kf_config : config :=
   Build_config "prog" (Some 1000) None None None None None false 3 false None "/bin/prog" ["prog"].
 Definition kf_world : world := Build_world [] 0 (Some ("bob", 1000, 100)) [] true.
 Definition kf_oracle : oracle := fun s => match s with SSetuid => Some (EOS 1) | _ => None end.
 
-Definition mentions_setuid (e : entry) : bool :=
-  match fst e with Write _ (MSetuid _) => true | _ => false end.
-
-Theorem setuid_raises_no_reason_refuted :
-  exists c w o,
-    In (Setuid 1000, Some (EOS 1)) (fst (run false c w o)) /\
-    existsb mentions_setuid (fst (run false c w o)) = false /\
-    snd (run false c w o) = EExit.
-Proof.
-  exists kf_config, kf_world, kf_oracle. vm_compute. split; [|split; reflexivity].
-  do 6 right. left. reflexivity.
-Qed.
+Example ex_setuid_fails :
+  run false kf_config kf_world kf_oracle =
+  ([(Setpgrp, None); (Dup2 ChildStdin 0, None); (Dup2 ChildStdout 1, None); (Dup2 ChildStderr 2, None);
+    (Setgroups [100], None); (Setgid 100, None); (Setuid 1000, Some (EOS 1));
+    (Write 2 (MSetuid RSetuid), None); (Write 2 MNotSpawned, None); (Exit 127, None)], EExit).
+Proof. vm_compute. reflexivity. Qed.
 
 (* ---- non-vacuity: runs that meet the hypotheses of the theorems *)
 Definition ex_config : config :=
